@@ -9,7 +9,8 @@ def _worker(recs):
     from .. import gx
     out = []
     for r in recs:
-        ta, tb = modelcase.render_text(r["blocks"]), modelcase.render_text(r["pblocks"])
+        sep = r["perm"].get("sep") == "comments"
+        ta, tb = modelcase.render_text(r["blocks"], sep_comments=sep), modelcase.render_text(r["pblocks"], sep_comments=sep)
         res = {"text": ta, "permuted": tb, "perm": r["perm"], "problems": []}
         try:
             a = gx.load(ta, name="m")
@@ -84,7 +85,7 @@ def main(chk: core.Check, replay):
     if replay:
         return core.replay_generic(chk, replay)
     quick = chk.tier == "quick"
-    consts = dict(CONSTS, NInter=1 if quick else 2, FreeSchedule=False, EmitMod=0,
+    consts = dict(CONSTS, NInter=1 if quick else 2, FreeSchedule=False, EmitMod=0, ExtraLayouts='{"headed"}',
                   BaseMod=41 if quick else 97, PermEmitMod=11 if quick else 41)
     cfg = tlc.make_cfg(spec="PSpec", constants=consts,
                        invariants=["C10_SameModel", "C10_SameLayout", "C10_StillAccepted", "PEmit"])
@@ -102,12 +103,12 @@ def main(chk: core.Check, replay):
     chk.replayed += len(out)
     kinds = {}
     for o in out:
-        k = kinds.setdefault(o["perm"]["kind"], {"texts": 0, "problems": 0})
+        k = kinds.setdefault(o["perm"]["kind"] + ("+comment-lines" if o["perm"].get("sep") == "comments" else ""), {"texts": 0, "problems": 0})
         k["texts"] += 1
         multi = 'expressions("' in o["text"]
         for p in o["problems"]:
             k["problems"] += 1
-            chk.violation(f"C10:{p.split(':')[0]}:{':'.join(p.split(':')[1:2])}:{o['perm']['kind']}:{'multi' if multi else 'single'}-component", o,
+            chk.violation(f"C10:{p.split(':')[0]}:{':'.join(p.split(':')[1:2])}:{o['perm']['kind']}:{'multi' if multi else 'single'}-component{':comment-lines' if o['perm'].get('sep') == 'comments' else ''}", o,
                           f"permutation {o['perm']['kind']} of the text: {p}")
     chk.extra["permutations"] = kinds
     swapped_duplicates(chk, quick)
